@@ -235,7 +235,10 @@ def externalEnding (s : SimState) (allowIO : Bool) (allowLocal : Bool) : Option 
       if !(trailing.all fun x => x.1 == 2 && s.estCalled) then some "messages other than concurrent UPDATEs follow the final NOTIFICATION" else
       (match decodeNotif (m.drop 19) with
        | .ok n =>
-         if n.code == 6 then (if allowLocal then none else some "Cease sent although nothing in the trace asked for this connection to be closed")
+         -- (the Cease corebgp sends on its own account — stop, collision — is always (6,0) without data: `ceaseNotif`; any
+         -- other Cease can only be the plugin's answer to a consumed input, which the model explains itself)
+         if n.code == 6 && (n.sub != 0 || !n.data.isEmpty) then some s!"unexpected NOTIFICATION ({n.code},{n.sub}) as ending: a Cease of corebgp's own has subcode 0 and no data"
+         else if n.code == 6 then (if allowLocal then none else some "Cease sent although nothing in the trace asked for this connection to be closed")
          else if n.code == 4 && n.sub == 0 then none
          else some s!"unexpected NOTIFICATION ({n.code},{n.sub}) as ending"
        | _ => some "undecodable NOTIFICATION as ending")
@@ -249,7 +252,7 @@ structure ConnVerdict where
   rcvdNotif : Option (UInt8 × Nat) := none    -- a NOTIFICATION from the remote that the session consumed: code, time
 
 /-- run the session model over the inputs the remote sent and compare -/
-def checkConn (cfg : SessCfg) (c : ConnInfo) (cbs : List CbCall) (allowLocal : Bool) : ConnVerdict := Id.run do
+def checkConn (cfg : SessCfg) (c : ConnInfo) (cbs : List CbCall) (allowLocal : Bool) (prompt : Bool := false) : ConnVerdict := Id.run do
   let (outFrames, outEnd) := Spec.parseStream c.outbound
   let mut fails : List String := []
   match outEnd with
@@ -297,7 +300,12 @@ def checkConn (cfg : SessCfg) (c : ConnInfo) (cbs : List CbCall) (allowLocal : B
       | .error why =>
         -- not reproduced: admissible only if what was observed instead is an external ending here
         match externalEnding st lenient allowLocal with
-        | none => stop := true
+        | none =>
+          -- a local stop excuses input that was still on its way — not input that had been lying there, whole, for more
+          -- than a second while nothing kept the FSM goroutine busy (`prompt`, judged by the caller)
+          if prompt && !lenient && (externalEnding st lenient false).isSome then
+            fails := fails ++ [s!"L1 input #{consumed + 1} ({reprStr inp |>.take 60}) in {reprStr st.phase} had been sent more than 1 s before the connection was stopped and was neither answered nor acted upon: {why}"]
+          stop := true
         | some _ =>
           fails := fails ++ [s!"L1 input #{consumed + 1} ({reprStr inp |>.take 60}) in {reprStr st.phase}: {why}"]
           stop := true
@@ -352,6 +360,10 @@ def sentNotifCode (c : ConnInfo) (code : UInt8) : Bool :=
 
 /-! ### monitors over the whole trace -/
 
+/-- did corebgp send any NOTIFICATION on `c`? -/
+def sentAnyNotif (c : ConnInfo) : Bool :=
+  ((Spec.parseStream c.outbound).1.any fun (ty, _) => ty == 3)
+
 def remoteOpenOf (c : ConnInfo) : Option OpenMsg :=
   match (inboundTimed c).head? with
   | some (_, 1, b) => match Spec.parseOpen b with | some o => some o | none => none
@@ -376,6 +388,14 @@ def monitorHold (cfg : SessCfg) (c : ConnInfo) (cbs : List CbCall) (tObsEnd : Na
           let tLast := (ins.filter fun (t, _, _) => t ≤ tn).foldl (fun m (t, _, _) => max m t) 0
           if tn < tLast + hold * sec then
             fails := fails ++ [s!"C06 Hold Timer Expired sent {(tn - tLast) / ms} ms after the last message received, earlier than the hold time in force ({hold} s)"]
+    -- (a') an expired session ends on corebgp's own account: the connection is closed and the plugin told (OnClose)
+    -- right after the NOTIFICATION, not only when the remote closes its side or the peer is stopped
+    for (tn, ty, b) in outs do
+      if ty == 3 && b.take 2 == [4, 0] && tn > tUp && hold != 0 && cbs.any (·.name == "OnEstablished") then
+        let oc := cbs.find? fun cb => cb.name == "OnClose"
+        let late := match oc with | some cb => cb.tEnter > tn + 1000 * ms | none => true
+        if tObsEnd > tn + 1100 * ms && late then
+          fails := fails ++ ["C06 Hold Timer Expired was sent but the session was not ended (connection closed, OnClose) within 1 s of it"]
     -- (b) once silent for the hold time the session must be torn down
     if hold != 0 && c.remoteClosed.isNone then
       let tLast := (ins.filter fun (t, _, _) => t ≤ tEnd).foldl (fun m (t, _, _) => max m t) 0
